@@ -493,7 +493,64 @@ def write_error_case(ctx, case):
     ctx.label('write_error_then_disconnect')
 
 
-COMPONENTS = {'write_error': write_error_case,
+def repeat_case(ctx, case):
+    """The same Connection object used for several play sessions in a row
+    (connect, server disconnects, connect again ...): in EVERY session each
+    keep-alive is answered exactly once and each teleport confirmed once.
+    case {version, compress, sessions: [[ids..], ..]}"""
+    version = case['version']
+    ctx.ev()
+    login = [('compress', case['compress'])] \
+        if case.get('compress') is not None else []
+    srvs = []
+    for k, ids in enumerate(case['sessions']):
+        burst = [('keep_alive', {'keep_alive_id': i}) for i in ids]
+        srvs.append(servers.Server({
+            'version': version, 'login': login + [('success',)],
+            'play': {'bursts': [burst], 'mode': 'reactive',
+                     'end': 'disconnect'}}))
+    world = vnet.World(servers=list(srvs))
+    with vnet.installed(world):
+        conn, o = servers.make_connection(world, allowed_versions={version})
+        for k in range(len(srvs)):
+            try:
+                conn.connect()
+            except Exception as e:
+                ctx.fail('repeat', 'K-connect-raised', dict(case, session=k),
+                         exc=e)
+                return
+            state = world.settle()
+            if state == 'timeout':
+                from vlib.core import HarnessError
+                raise HarnessError('C11 repeat case did not settle')
+            if state != 'done':
+                ctx.fail('repeat', 'K4-thread-never-terminates',
+                         dict(case, session=k), state)
+                world.kill_all()
+                return
+    for k, (sv, ids) in enumerate(zip(srvs, case['sessions'])):
+        if sv.errors:
+            ctx.fail('repeat', 'K1-malformed-client-frames',
+                     dict(case, session=k), sv.errors[:2])
+            return
+        want = [('keep_alive', i) for i in ids]
+        if sv.replies != want or sv.other_play_frames:
+            ctx.fail('repeat', 'K1K2-replies', dict(case, session=k),
+                     (sv.replies[:6], len(sv.other_play_frames)),
+                     (want[:6], 0))
+            return
+    if o.exceptions:
+        ctx.fail('repeat', 'K4-error-on-clean-disconnect', case,
+                 repr(o.exceptions[0][0]))
+        return
+    if o.exits != len(srvs):
+        ctx.fail('repeat', 'K4-exit-callback', case, o.exits, len(srvs))
+        return
+    ctx.nt('repeat', repr(case))
+    ctx.label('repeat_sessions_%d' % len(srvs))
+
+
+COMPONENTS = {'repeat': repeat_case, 'write_error': write_error_case,
               'history': history_case, 'real_history': real_history_case,
               'listener_disconnect': listener_disconnect_case}
 
@@ -632,6 +689,21 @@ def t_real(ctx, versions, n):
                'real')
 
 
+def t_repeat(ctx, versions, n):
+    k = 0
+    for v in versions:
+        k += 1
+        repeat_case(ctx, {'version': v, 'compress': [None, 0, 64][k % 3],
+                          'sessions': [[1, 2], [3], [4, 5, 6]]})
+    strat = st.fixed_dictionaries({
+        'version': st.sampled_from(versions),
+        'compress': st.sampled_from([None, 0, 64]),
+        'sessions': st.lists(st.lists(st.integers(0, 2 ** 31 - 1),
+                                      min_size=1, max_size=6),
+                             min_size=2, max_size=5)})
+    hyp(ctx, 'repeat', strat, lambda c, case: repeat_case(c, case), n)
+
+
 def t_write_error(ctx, versions):
     k = 0
     for v in versions:
@@ -679,6 +751,8 @@ def tasks(tier):
         tl.append(('real_%d' % i, t_real,
                    dict(versions=rel, n=12 if q else 150)))
     tl.append(('write_error', t_write_error, dict(versions=rel)))
+    tl.append(('repeat', t_repeat, dict(versions=rel[::2] if q else rel,
+                                        n=40 if q else 1000)))
     tl.append(('listener_disconnect', t_listener_disconnect,
                dict(versions=rel[::3] if q else rel, n=60 if q else 1500)))
     for i in range(8 if q else 16):
